@@ -203,6 +203,9 @@ def main():
             print(c[0])
         return
     OPTS = dict(getattr(mod, "OPTS", {}).get(tier, {}))
+    if tier == "thorough" and "SYMX_XCHECK_EVERY" not in os.environ:
+        from . import smt
+        smt.XCHECK_EVERY = 40  # every 40th decided query is re-decided by cvc5 (a disagreement is a harness error)
     known = load_known(prop)
     results = [None] * len(CASES)
     if a.jobs <= 1 or len(CASES) <= 1:
@@ -234,6 +237,8 @@ def main():
             inconclusive.append((cid, "coverage", f"path coverage incomplete: {st}"))
         sm = res.get("smt", {})
         agg["queries"] += sm.get("queries", 0)
+        for kx in ("xcheck", "xcheck_unknown", "xcheck_disagree"):
+            agg[kx] = agg.get(kx, 0) + sm.get(kx, 0)
         agg["solver_s"] += sm.get("time", 0.0)
         if sm.get("xcheck_disagree"):
             harness_errors.append((cid, "xcheck", "z3 / cvc5 disagree"))
@@ -336,7 +341,9 @@ def main():
             obligations=agg["obligations"], discharged=agg["trivial"] + agg["solver"] + agg["concrete"],
             obligation_classes=dict(total=agg["obligations"], normalised_trivial=agg["trivial"], decided_by_solver=agg["solver"],
                              structural=agg["concrete"], violated=agg["violated"], unknown=agg["unknown"]),
-            solver=dict(queries=agg["queries"], seconds=round(agg["solver_s"], 3), by_kind=by_kind, engine="z3 " + _z3v()),
+            solver=dict(queries=agg["queries"], seconds=round(agg["solver_s"], 3), by_kind=by_kind, engine="z3 " + _z3v(),
+                        cross_checked_with_cvc5=dict(sampled=agg.get("xcheck", 0), agree=agg.get("xcheck", 0) - agg.get("xcheck_unknown", 0) - agg.get("xcheck_disagree", 0),
+                                                     cvc5_unknown=agg.get("xcheck_unknown", 0), disagree=agg.get("xcheck_disagree", 0))),
             functions_executed_symbolically=sorted(fns),
             bounds=getattr(mod, "BOUNDS", {}).get(tier, getattr(mod, "BOUNDS", {})) if isinstance(getattr(mod, "BOUNDS", {}), dict) else str(getattr(mod, "BOUNDS", "")),
             known_findings_printed=sorted(printed_known),
